@@ -18,6 +18,7 @@ type indexSite struct {
 	safe  bool
 	why   string
 	param bool // the indexed value derives from a string/slice parameter (input)
+	shape string // the expression with the indexed value written as $ and its type in front: "[]*T|$[(len($)-1)]"
 }
 
 // isLenOf2: v is len(y) with y the same value as x (identical SSA value, structurally equal, or the
@@ -228,10 +229,10 @@ func indexSites(fn *ssa.Function) []indexSite {
 		switch x := in.(type) {
 		case *ssa.IndexAddr:
 			ok, why := checkIndex(in, x.X, x.Index, false)
-			out = append(out, indexSite{in, pathOf(x.X) + "[" + pathOf(x.Index) + "]", ok, why, isInputDerived(x.X)})
+			out = append(out, indexSite{in, pathOf(x.X) + "[" + pathOf(x.Index) + "]", ok, why, isInputDerived(x.X), shapeOf(x.X, pathOf(x.X)+"["+pathOf(x.Index)+"]")})
 		case *ssa.Index:
 			ok, why := checkIndex(in, x.X, x.Index, false)
-			out = append(out, indexSite{in, pathOf(x.X) + "[" + pathOf(x.Index) + "]", ok, why, isInputDerived(x.X)})
+			out = append(out, indexSite{in, pathOf(x.X) + "[" + pathOf(x.Index) + "]", ok, why, isInputDerived(x.X), shapeOf(x.X, pathOf(x.X)+"["+pathOf(x.Index)+"]")})
 		case *ssa.Slice:
 			t := x.X.Type()
 			if p, ok := t.Underlying().(*types.Pointer); ok {
@@ -253,8 +254,18 @@ func indexSites(fn *ssa.Function) []indexSite {
 				}
 				whys = append(whys, why)
 			}
-			out = append(out, indexSite{in, pathOf(x), okAll, strings.Join(whys, "; "), isInputDerived(x.X)})
+			out = append(out, indexSite{in, pathOf(x), okAll, strings.Join(whys, "; "), isInputDerived(x.X), shapeOf(x.X, pathOf(x))})
 		}
 	})
 	return out
+}
+
+// shapeOf renders an index expression independently of what the indexed local is called.
+func shapeOf(x ssa.Value, expr string) string {
+	base := pathOf(x)
+	t := types.TypeString(x.Type(), func(p *types.Package) string { return p.Name() })
+	if base == "" {
+		return t + "|" + expr
+	}
+	return t + "|" + strings.ReplaceAll(expr, base, "$")
 }
